@@ -108,7 +108,7 @@ def main():
             if m.get("triage"):
                 v += " — " + m["triage"]
             out.append("| %s | %s | %s | %s | %s |" % (bid, ", ".join(os.path.basename(f) for f in m.get("files", []))[:70], first.replace("|", "/"), ("; ".join(fbad) or "silent").replace("|", "/"), v.replace("|", "/")))
-        out.append("\nTotals over %d patches (ids `-bN` = round 1, `-cN` = round 2): first verdict %d with an alarm (exit 1), %d more with only exit 2; now %d with an alarm, %d with only exit 2, %d silent under every check.\n" % (tot, fal, finc, al, inc, tot - al - inc))
+        out.append("\nTotals over %d patches (ids `-bN` = round 1, `-cN` = round 2, `-dN` = round 3, `-eN` = round 4): first verdict %d with an alarm (exit 1), %d more with only exit 2; now %d with an alarm, %d with only exit 2, %d silent under every check.\n" % (tot, fal, finc, al, inc, tot - al - inc))
     block = "\n".join(out) + "\n"
     p = os.path.join(HERE, "DESIGN.md")
     s = open(p).read()
